@@ -29,6 +29,8 @@ func checkC02(c *Ctx, r *Report) {
 	checkDMRegionSwitches(c, r)
 	checkDMBlockInterleave(c, r)
 	checkDMEccOrder(c, r)
+	checkDMFrame(c, r)
+	checkDMDeinterleave(c, r)
 	// codeword-level agreement of the mode encoders with the bit-stream parser
 	checkDMAscii(c, r)
 	checkDMLatches(c, r)
@@ -38,6 +40,7 @@ func checkC02(c *Ctx, r *Report) {
 	checkDMBase256(c, r)
 	checkDMMacros(c, r)
 	checkDMX12EOD(c, r)
+	checkDMEdifactEOD(c, r)
 	checkPureAxis(c, r, [][2]string{{"datamatrix", "extractPureBits"}, {"datamatrix", "moduleSize"}})
 	// error discipline
 	runEDrop(c, r, []string{"datamatrix", "datamatrix/encoder", "datamatrix/decoder", "datamatrix/detector"}, 10)
@@ -788,7 +791,7 @@ func checkDMTriples(c *Ctx, r *Report) {
 // ---------------------------------------------------------------------------------------------------------------
 
 func checkDMBase256(c *Ctx, r *Report) {
-	r.Rule("S-DMB256", "Base256Encoder.encode writes, after its character loop, exactly a length field followed by the data bytes - one byte n for 1..249 bytes, two bytes (n/250 + 249, n%250) for 250..1555, and the single byte 0 when the data runs to the end of the symbol (no further characters and no padding) - and decodeBase256Segment reads each of these forms back as exactly the data bytes (as Latin-1 text): the tail of the encoder and the whole parser function are folded for data lengths 1..5, 249, 250, 251, 1555 in all three situations", 2)
+	r.Rule("S-DMB256", "Base256Encoder.encode writes, after its character loop, exactly a length field followed by the data bytes - one byte n for 1..249 bytes, two bytes (n/250 + 249, n%250) for 250..1555, and the single byte 0 when the data runs to the end of the symbol (no further characters and no padding) - and decodeBase256Segment reads each of these forms back as exactly the data bytes (as Latin-1 text): the tail of the encoder and the whole parser function are folded for data lengths 1..5, 249, 250, 251, 1555 in all three situations; the length the encoder looks the symbol up for never exceeds the codeword count the run really reaches (an over-estimate would cache a larger symbol than needed)", 2)
 	fd, p := c.funcDeclOf("datamatrix/encoder", "Base256Encoder.encode")
 	key := "datamatrix Base 256 length field"
 	if fd == nil {
@@ -864,6 +867,7 @@ func checkDMBase256(c *Ctx, r *Report) {
 			var written []int64
 			const before = 3 // codewords already in the symbol
 			capacity := int64(0)
+			requested := int64(-1)
 			h := &rpf{}
 			h.callHook = func(rr *rpf, call *ast.CallExpr, callee types.Object) (*Val, bool) {
 				fn, ok := callee.(*types.Func)
@@ -878,6 +882,7 @@ func checkDMBase256(c *Ctx, r *Report) {
 				case "UpdateSymbolInfoByLength":
 					cur := rr.expr(call.Args[0])
 					capacity = cur.I
+					requested = cur.I
 					if sit.mustPad {
 						capacity = cur.I + 2
 					}
@@ -933,6 +938,12 @@ func checkDMBase256(c *Ctx, r *Report) {
 				header = []int64{n/250 + 249, n % 250}
 			}
 			want := append(append([]int64{}, header...), data...)
+			if requested > before+int64(len(written)) {
+				// the symbol is looked up (and cached) for the requested length: asking for more than the run takes can
+				// select a larger symbol than the content needs (C13)
+				bad = fmt.Sprintf("%d data bytes, %s: the symbol is looked up for %d codewords although the run brings the count to %d only - a larger symbol than needed may be cached", n, sit.name, requested, before+int64(len(written)))
+				continue
+			}
 			if fmt.Sprint(written) != fmt.Sprint(want) {
 				show := func(xs []int64) string {
 					if len(xs) > 8 {
@@ -1275,4 +1286,187 @@ func checkDMX12EOD(c *Ctx, r *Report) {
 	}
 	r.Extra("x12_eod_states", n)
 	reportFold(r, c, "S-DMEOD", key, fd.Pos(), bad)
+}
+
+// S-DMEDIEOD: EDIFACT end of data - the encoder's unlatch decision against the parser's implicit exit
+func checkDMEdifactEOD(c *Ctx, r *Report) {
+	r.Rule("S-DMEDIEOD", "edifactHandleEOD and decodeEdifactSegment agree on when EDIFACT mode ends without an unlatch: the parser's exit test at a group boundary is folded for 0..5 remaining codewords (it leaves the mode iff at most K remain), and edifactHandleEOD, folded on a model of the encoder context (real symbol capacities, cursor, codeword count) over message tails, buffered characters and free codewords, (a) leaves the unlatch out only when, in the symbol finally needed, at most K codewords remain after what it wrote and the rest of the text fits them, and (b) never starts a group with fewer than K+1 codewords left, which the parser would not read as EDIFACT", 1)
+	efd, ep := c.funcDeclOf("datamatrix/encoder", "edifactHandleEOD")
+	dfd, dp := c.funcDeclOf("datamatrix/decoder", "decodeEdifactSegment")
+	key := "datamatrix/encoder.edifactHandleEOD"
+	if efd == nil || dfd == nil {
+		r.AnchorLost("S-DMEDIEOD", key, "edifactHandleEOD / decodeEdifactSegment not found")
+		return
+	}
+	r.Analysed(key)
+	r.Analysed("datamatrix/decoder.decodeEdifactSegment")
+	// ---- parser: the first statement of the loop body is the exit test on bits.Available()
+	var exitIf *ast.IfStmt
+	ast.Inspect(dfd.Body, func(n ast.Node) bool {
+		if f, ok := n.(*ast.ForStmt); ok && exitIf == nil && len(f.Body.List) > 0 {
+			if ifs, ok := f.Body.List[0].(*ast.IfStmt); ok && ifs.Init == nil && ifs.Else == nil && len(ifs.Body.List) == 1 {
+				if _, isRet := ifs.Body.List[0].(*ast.ReturnStmt); isRet {
+					exitIf = ifs
+				}
+			}
+		}
+		return true
+	})
+	if exitIf == nil {
+		r.AnchorLost("S-DMEDIEOD", "datamatrix/decoder.decodeEdifactSegment", "no exit test at the top of the group loop")
+		return
+	}
+	K := int64(-1)
+	monotone := true
+	for cwLeft := int64(1); cwLeft <= 5; cwLeft++ {
+		h := &rpf{}
+		h.callHook = func(rr *rpf, call *ast.CallExpr, callee types.Object) (*Val, bool) {
+			if isMethodNamed(callee, "common", "BitSource", "Available") {
+				return vint(8 * cwLeft), true
+			}
+			return nil, false
+		}
+		rr := &rpf{c: c, p: dp, env: map[types.Object]*Val{}, callHook: h.callHook}
+		v, err := rr.tryExpr(exitIf.Cond)
+		if err != nil || v.K != VBool {
+			r.Undecided("S-DMEDIEOD", "datamatrix/decoder.decodeEdifactSegment", c.pos(exitIf.Pos()), "exit test is not a function of bits.Available()")
+			return
+		}
+		if v.B {
+			if cwLeft != 1 && K != cwLeft-1 {
+				monotone = false
+			}
+			K = cwLeft
+		}
+	}
+	if K < 0 {
+		K = 0
+	}
+	r.Check(monotone && K == 2, "S-DMEDIEOD", "datamatrix/decoder.decodeEdifactSegment exit", c.pos(exitIf.Pos()), fmt.Sprintf("the parser leaves EDIFACT mode at a group boundary when at most %d codewords remain; ISO 16022 5.2.8.2 says one or two", K))
+	// ---- encoder
+	caps := []int64{3, 5, 8, 12, 18, 22, 30, 36, 44}
+	capFor := func(n int64) int64 {
+		for _, cp := range caps {
+			if cp >= n {
+				return cp
+			}
+		}
+		return -1
+	}
+	bad := ""
+	states := 0
+	for _, cw := range []int64{1, 2, 3, 4, 5, 6, 7, 8, 9, 10, 11, 12, 16, 17, 18} {
+		for rem := int64(0); rem <= 4 && bad == ""; rem++ {
+			for count := int64(1); count <= 4 && bad == ""; count++ {
+				// cw codewords written so far; count-1 characters and the unlatch are buffered; rem characters follow
+				states++
+				L := int64(20)
+				pos := L - rem
+				curPos := pos
+				var written []int64
+				symCap := int64(-1)
+				h := &rpf{unroll: 100}
+				h.selHook = func(rr *rpf, sel *ast.SelectorExpr) (*Val, bool) {
+					if sel.Sel.Name == "pos" {
+						return vint(curPos), true
+					}
+					return nil, false
+				}
+				h.stHook = func(rr *rpf, lhs ast.Expr, v *Val) bool {
+					if sel, ok := lhs.(*ast.SelectorExpr); ok && sel.Sel.Name == "pos" && v.K == VInt {
+						curPos = v.I
+						return true
+					}
+					return false
+				}
+				h.callHook = func(rr *rpf, call *ast.CallExpr, callee types.Object) (*Val, bool) {
+					fn, ok := callee.(*types.Func)
+					if !ok {
+						return nil, false
+					}
+					total := cw + int64(len(written))
+					switch fn.Name() {
+					case "UpdateSymbolInfo":
+						if symCap < total {
+							symCap = capFor(total)
+						}
+						return &Val{K: VNil}, true
+					case "UpdateSymbolInfoByLength":
+						n := rr.expr(call.Args[0])
+						if n.K != VInt {
+							rpfFail("UpdateSymbolInfoByLength with a non-constant length")
+						}
+						if symCap < n.I {
+							symCap = capFor(n.I)
+						}
+						if symCap < 0 {
+							return vstr("error"), true
+						}
+						return &Val{K: VNil}, true
+					case "ResetSymbolInfo":
+						symCap = -1
+						return &Val{K: VNil}, true
+					case "GetSymbolInfo":
+						return &Val{K: VStruct, Fields: map[string]*Val{}}, true
+					case "GetDataCapacity":
+						if symCap < 0 {
+							rpfFail("symbol info read while unset")
+						}
+						return vint(symCap), true
+					case "GetCodewordCount":
+						return vint(total), true
+					case "GetRemainingCharacters":
+						return vint(L - curPos), true
+					case "HasMoreCharacters":
+						return vbool(curPos < L), true
+					case "SignalEncoderChange":
+						return &Val{K: VNil}, true
+					case "WriteCodewords":
+						v := rr.expr(call.Args[0])
+						if v.K != VList {
+							rpfFail("WriteCodewords with a non-constant argument")
+						}
+						for _, e := range v.L {
+							written = append(written, e.I)
+						}
+						return &Val{K: VNil}, true
+					}
+					return errCtorHook(rr, call, callee)
+				}
+				buf := &Val{K: VList}
+				for i := int64(0); i < count-1; i++ {
+					buf.L = append(buf.L, vint(33+i)) // '!', '"', '#'
+				}
+				buf.L = append(buf.L, vint(31))
+				res, err := c.rpfCall(efd, ep, []*Val{{K: VNil}, buf}, h)
+				if err != nil {
+					bad = "?" + err.Error()
+					break
+				}
+				if len(res) != 1 || res[0].K != VNil {
+					continue // an error is never a wrong symbol
+				}
+				after := cw + int64(len(written))
+				remAfter := L - curPos
+				finalCap := capFor(after + remAfter)
+				if finalCap < 0 {
+					continue
+				}
+				where := fmt.Sprintf("%d codewords written, %d character(s) and the unlatch buffered, %d character(s) to follow", cw, count-1, rem)
+				if len(written) == 0 {
+					// nothing written: no unlatch in the stream, the parser must leave by itself at this group boundary
+					if finalCap-after > K {
+						bad = fmt.Sprintf("%s: no unlatch is written although the symbol finally needed (%d data codewords) leaves %d codewords after the EDIFACT groups - the parser leaves the mode by itself only for at most %d and reads what follows as EDIFACT characters", where, finalCap, finalCap-after, K)
+					}
+					continue
+				}
+				// a group was written: the parser must still be in EDIFACT mode when it starts
+				if finalCap-cw <= K {
+					bad = fmt.Sprintf("%s: a last group (with the unlatch) is written although only %d codeword(s) of the %d-codeword symbol are left - the parser has already left EDIFACT mode there and reads the group as ASCII", where, finalCap-cw, finalCap)
+				}
+			}
+		}
+	}
+	r.Extra("edifact_eod_states", states)
+	reportFold(r, c, "S-DMEDIEOD", key, efd.Pos(), bad)
 }
